@@ -117,7 +117,9 @@ example : ((CowHeap.CowEx.ops2 ++ [CowHeap.HOp.destroy 1, CowHeap.HOp.destroy 3,
 `SetStatesFinal`, `EraseFinalStates`, `Clear`): state keys are unique, every cluster has unique symbol keys and is not
 empty, no tuple set is empty or contains a tuple twice, the final-state set has no duplicate.  The transition iterators of
 the C++ rely on "no empty cluster, no empty tuple set": `Iterator::operator++` moves to `begin()` of the next cluster /
-tuple set and the result is dereferenced without an emptiness test (the constructor only `assert`s non-emptiness) -/
+tuple set and the result is dereferenced without an emptiness test (the constructor only `assert`s non-emptiness) – see
+`C20_iterators_never_dereference_empty_partial` and `C20_iterators_stuck_without_invariant_partial` in
+`Vata/Properties/C12_Iterators.lean` for the iterator state machines -/
 theorem C20_store_invariant_partial (ops : List Store.Op) : Store.Inv (Store.run ops) := Store.store_inv ops
 
 example : Store.run Store.StoreEx.ops1 =
